@@ -11,6 +11,7 @@ from wa import callgraph, loopseg
 GE = "evaluation::get_evaluation"
 ALLOWED_EXT = (
     "std::iter::Iterator>::next", "std::iter::IntoIterator>::into_iter", "IntoIterator>::into_iter",
+    "std::iter::IntoIterator for &'a [T]>::into_iter",
     "Iterator for std::ops::Range<A>>::next",
     # comparison through references: delegates to the element's PartialEq (a cone member if it is local)
     "std::cmp::PartialEq<&B> for &A>::eq", "std::cmp::PartialEq<&B> for &A>::ne",
@@ -236,7 +237,7 @@ class Nest:
           into_iter(iterator)         -> the iterator"""
         from wa.expr import mk_bin, mk_ref, mk_deref
         e0 = e
-        if e[0] == "call" and e[1].endswith("IntoIterator>::into_iter") and len(e[2]) == 1:
+        if e[0] == "call" and (e[1].endswith("IntoIterator>::into_iter") or e[1].endswith("IntoIterator for &'a [T]>::into_iter")) and len(e[2]) == 1:
             inner = e[2][0]
             if inner[0] == "call" and inner[1].endswith("::index"):
                 e = ("call", "core::slice::<impl [T]>::iter", (inner,), None)     # `for x in &a[lo..hi]`
@@ -485,16 +486,23 @@ class Nest:
         self.colour_expr = ("field", piece, "color")
         self.kind_expr = ("field", piece, "kind")
         is_colour = lambda x: x == self.colour_expr
-        self.per_colour = {c: {} for c in self.colours.values()}
+        is_kind = lambda x: x == self.kind_expr
+        kind_names = self.f.enum_variant_by_discr("board::PieceKind")
+        # what a piece adds is looked at per (colour, kind) trace: the kind may be decided by a branch
+        # (`match kind {..}` in the loop body, e.g. an inlined per-kind lookup) or stay symbolic
+        self.per_ck = {(c, k): {} for c in self.colours.values() for k in kind_names.values()}
         self.contrib_where = {}
-        n_contrib = {c: 0 for c in self.colours.values()}
+        n_contrib = {ck: 0 for ck in self.per_ck}
         for blocks, env, rest, full in paths:
             if full == "infeasible":
                 continue
             cols = loopseg.variants_on_path(rest, is_colour, self.colours)
             if not cols:
                 continue
-            extra = [c for c in rest if not loopseg.is_variant_test(c, is_colour)]
+            kinds = loopseg.variants_on_path(rest, is_kind, kind_names)
+            if not kinds:
+                continue
+            extra = [c for c in rest if not loopseg.is_variant_test(c, is_colour) and not loopseg.is_variant_test(c, is_kind)]
             contrib = {}
             for l in self.accs:
                 if l not in env:
@@ -530,11 +538,12 @@ class Nest:
             if not contrib:
                 continue
             for c in cols:
-                n_contrib[c] += 1
-                self.per_colour[c] = contrib
-        for c, n in n_contrib.items():
+                for k in kinds:
+                    n_contrib[(c, k)] += 1
+                    self.per_ck[(c, k)] = contrib
+        for (c, k), n in n_contrib.items():
             if n > 1:
-                raise ShapeNotRecognised("get_evaluation: a %s piece is scored on %d paths of the loop body (expected at most one)" % (c, n))
+                raise ShapeNotRecognised("get_evaluation: a %s %s is scored on %d paths of the loop body (expected at most one)" % (c, k, n))
 
     def affine_bounds(self):
         """{assert block: (holds, detail)} for the bounds checks inside the loop nest whose index is
@@ -618,7 +627,7 @@ class Fold:
         if not pairs:
             raise ShapeNotRecognised("get_evaluation: expected two nested loops, found %d loops" % len(loops))
         # they run one after the other, all of them on every path to a return
-        pairs.sort(key=lambda p: sum(1 for q in pairs if b.node_dominates(q[0], p[0])))
+        pairs = sorted(pairs, key=lambda p, all_=tuple(pairs): sum(1 for q in all_ if b.node_dominates(q[0], p[0])))
         for (h1, _), (h2, _) in zip(pairs, pairs[1:]):
             if not b.node_dominates(h1, h2) or h2 in loops[h1]:
                 raise ShapeNotRecognised("get_evaluation: the board walks are not executed one after the other")
@@ -644,11 +653,11 @@ class Fold:
         self.accs = [a for n in self.nests for a in n.accs]
         if len(set(self.accs)) != len(self.accs):
             raise ShapeNotRecognised("get_evaluation: an accumulator is shared between two board walks")
-        self.per_colour = {c: {} for c in self.colours.values()}
+        self.per_ck = {}
         self.contrib_where = {}
         for n in self.nests:
-            for c, d in n.per_colour.items():
-                self.per_colour[c].update(d)
+            for ck, d in n.per_ck.items():
+                self.per_ck.setdefault(ck, {}).update(d)
             self.contrib_where.update(n.contrib_where)
 
     # -- the hypothesis on the side to move -----------------------------------------------------------
@@ -691,30 +700,40 @@ class Fold:
 
     # -- straight-line code between the walks, and the tail --------------------------------------------
     def _between_and_tail(self):
+        """The loop-free code after each walk, evaluated path by path and composed: a local assigned
+        between two walks (`mg_phase = if phase > 24 {24} else {phase}`) keeps that value in the tail
+        unless a later walk writes it; a branch taken there stays a condition of the composed path.
+        self.tail = [(result expression over the accumulators' final values, conditions)]."""
         b = self.b
         later_written = [set() for _ in self.nests]
         for i in range(len(self.nests)):
             for n in self.nests[i + 1:]:
                 later_written[i] |= {c if isinstance(c, int) else c[1] for c in n.assigned_cells()}
         self.other_reads = set()
-        known = {}
-        known.update(self.nests[-1].invariant)
+        prefixes = [(dict(self.nests[-1].invariant), [])]      # (known values, conditions so far)
         for i, (n1, n2) in enumerate(zip(self.nests, self.nests[1:])):
-            paths = []
+            nxt = []
             for blocks, dec in enum_paths(b, self.ex, start=n1.exit, stop={n2.outer}):
                 if blocks[-1] != n2.outer:
                     raise ShapeNotRecognised("get_evaluation: code between two board walks can leave the function")
                 env, conds = eval_path(b, blocks[:-1])
-                if any(self.decided(self.fold_side(loopseg.subst_simplify(c[0], n2.invariant)), c) is False for c in conds):
-                    continue
-                paths.append((env, conds))
-            if len(paths) != 1:
-                raise ShapeNotRecognised("get_evaluation: the code between two board walks branches (%d paths)" % len(paths))
-            env, conds = paths[0]
-            for l, v in env.items():
-                self.other_reads |= loopseg.undef_cells(v)
-                if l not in later_written[i]:
-                    known[loopseg.undef(l)] = loopseg.subst_simplify(v, known)
+                for v in env.values():
+                    self.other_reads |= loopseg.undef_cells(v)
+                for c in conds:
+                    self.other_reads |= loopseg.undef_cells(c[0])
+                for known, sofar in prefixes:
+                    nz = lambda e: self.fold_side(loopseg.subst_simplify(loopseg.subst_simplify(e, n2.invariant), known))
+                    nconds = [(nz(c[0]),) + tuple(c[1:]) for c in conds]
+                    if any(self.decided(c[0], c) is False for c in nconds):
+                        continue
+                    k2 = dict(known)
+                    for l, v in env.items():
+                        if l not in later_written[i]:
+                            k2[loopseg.undef(l)] = nz(v)
+                    nxt.append((k2, sofar + [c for c in nconds if self.decided(c[0], c) is None]))
+            if not nxt or len(nxt) > 16:
+                raise ShapeNotRecognised("get_evaluation: the code between two board walks has %d feasible paths" % len(nxt))
+            prefixes = nxt
         self.tail = []
         for blocks, dec in enum_paths(b, self.ex, start=self.final_exit):
             if b.term(blocks[-1])["k"] != "return":
@@ -725,12 +744,20 @@ class Fold:
                 self.other_reads |= loopseg.undef_cells(res)
             for c in conds:
                 self.other_reads |= loopseg.undef_cells(c[0])
-            nz = lambda e: self.fold_side(loopseg.subst_simplify(e, known))
-            nconds = [(nz(c[0]),) + tuple(c[1:]) for c in conds]
-            if any(self.decided(c[0], c) is False for c in nconds):
-                continue
-            nconds = [c for c in nconds if self.decided(c[0], c) is None]
-            self.tail.append((nz(res) if res is not None else None, nconds))
+            for known, sofar in prefixes:
+                nz = lambda e: self.fold_side(loopseg.subst_simplify(e, known))
+                nconds = [(nz(c[0]),) + tuple(c[1:]) for c in conds]
+                if any(self.decided(c[0], c) is False for c in nconds):
+                    continue
+                nconds = sofar + [c for c in nconds if self.decided(c[0], c) is None]
+                # the same test made twice on one composed path must agree
+                seen, ok = {}, True
+                for c in nconds:
+                    k = (c[0], tuple(c[3]))
+                    v = (tuple(c[1]), c[2])
+                    ok = ok and seen.setdefault(k, v) == v
+                if ok:
+                    self.tail.append((nz(res) if res is not None else None, nconds))
 
     def cname(self, c):
         return self.nests[0].cname(c)
@@ -880,8 +907,11 @@ def _nonneg(P, is_phase_total):
 
 def r14_2(ctx):
     """Mirror identity and the rest of the symmetry/bound argument."""
+    from wa import finiteval
+    from wa.interp import Unknown
     f = ctx.facts
     colour_names = sorted(f.enum_variant_by_discr("board::PieceColor").values())
+    kind_names = [k for _, k in sorted(f.enum_variant_by_discr("board::PieceKind").items())]
     # the whole recognition is done once per hypothesis on the side to move
     folds = {S: Fold(f, S) for S in colour_names}
     fold = folds["White"]
@@ -891,9 +921,81 @@ def r14_2(ctx):
         if (fo.square_idx, fo.ranges, fo.kind_expr, fo.accs) != (fold.square_idx, fold.ranges, fold.kind_expr, fold.accs):
             raise ShapeNotRecognised("get_evaluation: the board walk differs with the side to move (other squares or other accumulators)")
     rank, file_ = fold.square_idx
-    # ---- what each accumulator receives from a piece: side to move -> colour of the piece -> acc -> (terms, const)
-    contrib = {S: {c: dict(d) for c, d in fo.per_colour.items()} for S, fo in folds.items()}
-    kinds_used = []
+    rr, cr = fold.ranges[rank], fold.ranges[file_]
+    nsq = (rr[1] - rr[0]) * (cr[1] - cr[0])
+
+    # ---- what each accumulator receives from one piece, fully instantiated:
+    # side to move S, colour C and kind K of the piece -> acc -> ({(matrix, row index, col index): coeff}, constant)
+    # Table and value lookups are *evaluated* for the kind (wa/finiteval.py), whether they are calls
+    # `mg_table(kind)`, fields of a per-kind struct built by an inlined helper, or literals selected by a
+    # `match kind` in the loop body; what is left symbolic is only the position (row, col).
+    labels = {}       # matrix -> name of the function it came from (for obligation keys), if any
+    failures = []
+
+    def matrix_of(B):
+        B = strip_refs(B)
+        try:
+            if B[0] == "call" and f.has_body(B[1]):
+                args = []
+                for a in B[2]:
+                    a = strip_refs(a)
+                    if not (a[0] == "agg" and a[2] and not a[3]):
+                        return None
+                    args.append(finiteval.enum_value(a[1], a[2]))
+                m = finiteval.run_fn(f, B[1], args)
+                name = B[1]
+            elif B[0] == "static":
+                m, name = finiteval.static_value(f, B[1]), None
+            elif B[0] == "agg" and B[1] == "array":
+                m, name = [[x[1] for x in row[3]] if (row[0] == "agg" and all(x[0] == "const" for x in row[3])) else None for row in B[3]], None
+            else:
+                return None
+        except Unknown:
+            return None
+        isint = lambda x: isinstance(x, int) and not isinstance(x, bool)
+        if not (isinstance(m, list) and m and all(isinstance(r, list) and r and all(isint(x) for x in r) for r in m)):
+            return None
+        key = tuple(tuple(r) for r in m)
+        if name:
+            labels.setdefault(key, set()).add(name)
+        return key
+
+    def instantiate(terms, const, K):
+        kindv = ("agg", "board::PieceKind", K, ())
+        cells, k0 = {}, const
+        for t, coef in terms.items():
+            t = loopseg.subst(t, {fold.kind_expr: kindv})
+            if t[0] == "index" and t[1][0] == "index":
+                m = matrix_of(t[1][1])
+                if m is None:
+                    return None
+                key = (m, t[1][2], t[2])
+                cells[key] = cells.get(key, 0) + coef
+                continue
+            v = None
+            c = _call_of_kind(f, t)
+            if c and all(a[0] == "agg" and a[2] and not a[3] for a in c[2]):
+                try:
+                    v = finiteval.run_fn(f, c[0], [finiteval.enum_value(a[1], a[2]) for a in c[2]])
+                except Unknown:
+                    v = None
+            if not (isinstance(v, int) and not isinstance(v, bool)):
+                return None
+            k0 += coef * v
+        return {k: c for k, c in cells.items() if c != 0}, k0
+
+    contrib = {}
+    for S, fo in folds.items():
+        for (C, K), d in fo.per_ck.items():
+            for l, (terms, const) in d.items():
+                inst = instantiate(terms, const, K)
+                if inst is None:
+                    failures.append("%s of a %s %s: %s" % (fold.cname(l), C, K, " + ".join(show_expr(t, b)[:50] for t in terms)))
+                    inst = ({("?", None, None): 1}, 0)
+                contrib[(S, C, K, l)] = inst
+    ctx.ob("fold:scores-the-square-it-visits", not failures, b.file,
+           "every contribution is a table cell / value of the kind of the piece on board[row][col] of the loop variables%s" % (
+               "" if not failures else "; not decodable: %s" % failures[:2]))
 
     def acc_local(t):
         """The accumulator cell a term of the tail denotes (its value when its loop nest is left)."""
@@ -901,10 +1003,10 @@ def r14_2(ctx):
         c = next(iter(cs)) if len(cs) == 1 else None
         return c if c in fold.accs and loopseg.cell_undef(c) == t else None
 
-    def per_piece(lf, S, colour):
-        """What one piece of `colour` adds, with `S` to move, to the quantity with linear form `lf`
-        over the accumulators: sum_l lf[l] * contribution(l, S, colour), as (terms, const); None if
-        lf is not a combination of accumulators."""
+    def per_piece(lf, S, C, K):
+        """What one piece (C, K) adds, with S to move, to the quantity with linear form `lf` over the
+        accumulators: sum_l lf[l] * contribution(l; S, C, K), as (cells, const); None if lf is not a
+        combination of accumulators."""
         if lf is None or lf[1] != 0 or not lf[0]:
             return None
         out, const = {}, 0
@@ -912,31 +1014,31 @@ def r14_2(ctx):
             l = acc_local(t)
             if l is None:
                 return None
-            terms, k0 = contrib[S][colour].get(l, ({}, 0))
+            cells, k0 = contrib.get((S, C, K, l), ({}, 0))
             const += a * k0
-            for x, cx in terms.items():
+            for x, cx in cells.items():
                 out[x] = out.get(x, 0) + a * cx
         return {x: cx for x, cx in out.items() if cx != 0}, const
 
-    phase_fns = set()
+    phase_vals = {}
     ptot = {}
 
     def is_phase_total(e):
         """e is a colour-blind, side-blind piece count: whatever the side to move and the colour of a
-        piece, the piece adds P(kind) to it (one phase accumulator, or `own_phase + opp_phase` ...)."""
+        piece, a piece of kind K adds the constant p(K) to it (one phase accumulator, `own + opp` ...)."""
         e = strip_refs(e)
         if e not in ptot:
-            got = set()
-            for S in colour_names:
-                for colour in colour_names:
-                    pp = per_piece(linear(e), S, colour)
-                    cls = _classify(f, *pp) if pp else None
-                    got.add((cls[1], cls[2]) if cls and cls[0] == "phase" else None)
-            ptot[e] = len(got) == 1 and None not in got
-            if ptot[e]:
-                fn, kinds = next(iter(got))
-                phase_fns.add(fn)
-                kinds_used.extend(kinds)
+            ok, vals = True, {}
+            for K in kind_names:
+                got = [per_piece(linear(e), S, C, K) for S in colour_names for C in colour_names] if linear(e) else [None]
+                got = {(tuple(sorted(g[0].items(), key=str)), g[1]) if g else None for g in got}
+                if len(got) != 1 or None in got or next(iter(got))[0]:
+                    ok = False
+                    break
+                vals[K] = next(iter(got))[1]
+            ptot[e] = ok
+            if ok:
+                phase_vals[e] = vals
         return ptot[e]
 
     def phase_only(e):
@@ -1025,10 +1127,27 @@ def r14_2(ctx):
             ok = d[0] == "bin" and d[1] in neg and phase_only(d[2]) and phase_only(d[3])
             ctx.ob("blend:condition-colour-free:%s%s" % (side, suffix[key]), ok, b.file, "the tail branches on `%s`" % show_expr(c[0], b)[:60])
 
-    # antisymmetry: White forms are the negation of Black forms; phase weight identical;
-    # orientation: with White to move each phase score is (white pieces' terms) - (black pieces' terms)
+    # antisymmetry: per piece, what it adds with Black to move is the negation of what it adds with
+    # White to move (two-sided accumulators: `b - w` against `w - b`; per-side passes: the pass
+    # parameter changes with the side); phase weight identical;
+    # orientation: with White to move each phase score adds  M_K[ri][ci] + v_K  for a white piece of
+    # kind K and subtracts  M_K[ri'][ci'] + v_K  for a black one
     named_totals = set()
-    tabs = {}       # 'mg' | 'eg' -> (classification of a white piece's term, of a black piece's negated term)
+    tabs = {}       # 'mg' | 'eg' -> {K: (white (matrix, ri, ci, v), black (matrix, ri, ci, v))}
+
+    def one_cell(pp, sign):
+        """pp == sign * (cell + v) -> (matrix, ri, ci, v) else None"""
+        if not pp or len(pp[0]) != 1:
+            return None
+        (key, coef), = pp[0].items()
+        if coef != sign or key[0] == "?":
+            return None
+        return key + (sign * pp[1],)
+
+    def show_pp(pp):
+        if not pp:
+            return "?"
+        return " ".join("%+d*table[%s][%s]" % (c, show_expr(k[1], b)[:20], show_expr(k[2], b)[:20]) if k[0] != "?" else "?" for k, c in pp[0].items()) + " %+d" % pp[1]
     for key in keys:
         sfx = suffix[key]
         w, k = forms.get(("White", key)), forms.get(("Black", key))
@@ -1037,28 +1156,30 @@ def r14_2(ctx):
                 continue      # blend form already reported
             ctx.ob("side-arms:paired%s" % sfx, False, b.file, "a path of the tail exists for only one side to move (conditions %s)" % [show_expr(c[0], b)[:40] for c in key])
             continue
-
-        # per piece: what it adds to a phase score with Black to move is the negation of what it adds
-        # with White to move (for two-sided accumulators that is `b - w` against `w - b`; for a per-side
-        # pass `own - opp` it is the pass parameter that changes with the side)
         ok = w[2] == k[2] and w[3] == k[3]
         for i in (0, 1):
-            for colour in colour_names:
-                pw_, pk_ = per_piece(w[i], "White", colour), per_piece(k[i], "Black", colour)
-                ok = ok and pw_ is not None and pk_ is not None and pk_ == ({x: -c for x, c in pw_[0].items()}, -pw_[1])
+            for C in colour_names:
+                for K in kind_names:
+                    pw_, pk_ = per_piece(w[i], "White", C, K), per_piece(k[i], "Black", C, K)
+                    ok = ok and pw_ is not None and pk_ is not None and pk_ == ({x: -c for x, c in pw_[0].items()}, -pw_[1])
         ctx.ob("side-arms:antisymmetric%s" % sfx, bool(ok), b.file,
                "with Black to move every piece adds to both phase scores the negation of what it adds with White to move, and the phase weight is the same")
         for i, nm in enumerate(("mg", "eg")):
-            pw, pb = per_piece(w[i], "White", "White"), per_piece(w[i], "White", "Black")
-            cw = _classify(f, *pw) if pw else None
-            cb = _classify(f, {x: -c for x, c in pb[0].items()}, -pb[1]) if pb else None
-            ok = bool(cw and cb and cw[0] == "table" and cb[0] == "table" and cw[1] == cb[1])
+            per_kind, ok, ex_w, ex_b = {}, True, None, None
+            for K in kind_names:
+                pw, pb = per_piece(w[i], "White", "White", K), per_piece(w[i], "White", "Black", K)
+                cw, cb = one_cell(pw, 1), one_cell(pb, -1)
+                ex_w, ex_b = ex_w or pw, ex_b or pb
+                if cw is None or cb is None or cw[0] != cb[0]:
+                    ok, ex_w, ex_b = False, pw, pb
+                    break
+                per_kind[K] = (cw, cb)
             if ok:
-                ok = tabs.setdefault(nm, (cw, cb)) == (cw, cb)
+                ok = tabs.setdefault(nm, per_kind) == per_kind
             ctx.ob("side-arms:%s-orientation%s" % (nm, sfx), ok, b.file,
-                   "with White to move the %s score adds table[..][..] + value of one table for every white piece and subtracts it for every black piece: white piece %s, black piece %s" % (
-                       nm, _show_terms(pw, b), _show_terms(pb, b)))
-        # phase weight: function of the phase accumulator only
+                   "with White to move the %s score adds table[..][..] + value of one table per kind for every white piece and subtracts it for every black piece: e.g. white piece %s, black piece %s" % (
+                       nm, show_pp(ex_w), show_pp(ex_b)))
+        # phase weight: function of the phase total only
         P = w[2]
         ctx.ob("blend:phase-weight-colour-free%s" % sfx, phase_only(P), b.file, "phase weight p = %s" % show_expr(P, b)[:50])
         for e in phase_totals_in(P):
@@ -1067,68 +1188,51 @@ def r14_2(ctx):
                 accs_in = sorted(fold.cname(c) for c in loopseg.undef_cells(e))
                 ctx.ob("phase:%s:colour-independent" % "+".join(accs_in), is_phase_total(e), b.file,
                        "whatever its colour and the side to move, a piece adds the same phase weight P(kind) to `%s`" % show_expr(e, b)[:60])
-    # ---- mirror identity per table
-    by_T = {}
-    for nm, (cw, cb) in sorted(tabs.items()):
-        by_T.setdefault(cw[1], []).append({"White": {"V": cw[2], "ri": cw[3], "ci": cw[4], "kinds": cw[5]},
-                                           "Black": {"V": cb[2], "ri": cb[3], "ci": cb[4], "kinds": cb[5]}})
-        kinds_used += list(cw[5]) + list(cb[5])
-    shape_ok = len(tabs) == 2 and len(by_T) == 2
+    # ---- mirror identity per phase score (labelled by the table function when there is one)
+    shape_ok = len(tabs) == 2
     ctx.ob("fold:shape", shape_ok, b.file,
-           "evaluation is a fold over %s x %s; per phase score a white piece adds and a black piece subtracts table[..][..] + value of one table: %s" % (
-               fold.ranges[0], fold.ranges[1], {nm: cw[1].split("::")[-1] for nm, (cw, cb) in sorted(tabs.items())}),
-           reason="shape-not-recognised")
+           "evaluation is a fold over %s x %s; per phase score a white piece adds and a black piece subtracts table[..][..] + value of the table of its kind" % (
+               fold.ranges[0], fold.ranges[1]), reason="shape-not-recognised")
     if not shape_ok:
         return
-    cb_ = contrib["White"]["Black"]
-    where = {T: next((fold.contrib_where[l] for l in fold.accs if l in cb_ and l in fold.contrib_where and any(
-        strip_refs(x[1][1])[1] == T for x in cb_[l][0] if x[0] == "index" and x[1][0] == "index" and strip_refs(x[1][1])[0] == "call")), b.file) for T in by_T}
     item_name = {("item", rank): "row", ("item", file_): "col"}
-    for T, (d,) in sorted(by_T.items()):
-        uw, ub = d["White"], d["Black"]
-        short = T.split("::")[-1]
-        same_kind = len(set(uw["kinds"]) | set(ub["kinds"])) == 1
-        ctx.ob("mirror:%s:same-value-function" % short, uw["V"] == ub["V"] and same_kind, where[T],
-               "both colours add %s(kind)[..][..] + %s(kind) for the kind of the piece on the square (white: %s, black: %s)" % (short, uw["V"].split("::")[-1], uw["V"].split("::")[-1], ub["V"].split("::")[-1]))
-        lw_r, lb_r = linear(uw["ri"]), linear(ub["ri"])
-        lw_c, lb_c = linear(uw["ci"]), linear(ub["ci"])
-        ok_shape = all(x is not None and len(x[0]) == 1 for x in (lw_r, lb_r, lw_c, lb_c))
-        if not ok_shape:
-            ctx.ob("mirror:%s:index-forms" % short, False, where[T], "table indices are not affine in the loop variables", reason="shape-not-recognised")
-            continue
-        (rw, aw), = lw_r[0].items()
-        (rb, ab), = lb_r[0].items()
-        (cw, acw), = lw_c[0].items()
-        (cb, acb), = lb_c[0].items()
-        bw, bb_ = lw_r[1], lb_r[1]
-        same_vars = rw == rb == ("item", rank) and cw == cb == ("item", file_)
-        # black at row r must use what white uses at row FLIP - r:  aw*(FLIP - r) + bw == ab*r + bb
-        mirror = same_vars and ab == -aw and bb_ == aw * FLIP + bw
-        ctx.ob("mirror:%s:row-identity" % short, bool(mirror), where[T],
-               "white row index %+d*%s%+d, black row index %+d*%s%+d; the colour mirror maps row r to %d-r, so black must index %+d*row%+d" % (
-                   aw, item_name.get(rw, "?"), bw, ab, item_name.get(rb, "?"), bb_, FLIP, -aw, aw * FLIP + bw))
-        ctx.ob("mirror:%s:column-identity" % short, same_vars and acw == acb and lw_c[1] == lb_c[1], where[T],
-               "column index white %+d*%s%+d, black %+d*%s%+d (files are not mirrored)" % (acw, item_name.get(cw, "?"), lw_c[1], acb, item_name.get(cb, "?"), lb_c[1]))
-    # the piece scored is the one on board[row][col]
-    ctx.ob("fold:scores-the-square-it-visits", bool(kinds_used) and all(k == fold.kind_expr for k in kinds_used), b.file,
-           "the kind/colour used come from board[row][col] of the same loop variables")
-    rr, cr = fold.ranges[rank], fold.ranges[file_]
+    bounds = {}
+    for nm, per_kind in sorted(tabs.items()):
+        names = {n for K in kind_names for n in labels.get(per_kind[K][0][0], ())}
+        short = next(iter(names)).split("::")[-1] if len(names) == 1 else nm
+        where = b.file
+        ctx.ob("mirror:%s:same-value-function" % short, all(cw[3] == cb[3] for cw, cb in per_kind.values()), where,
+               "for every kind both colours add the same material value next to the table cell: %s" % {K: (cw[3], cb[3]) for K, (cw, cb) in per_kind.items()})
+        verdict = {"forms": True, "row": True, "col": True}
+        detail = ""
+        for K, (cw, cb) in per_kind.items():
+            lw_r, lb_r, lw_c, lb_c = linear(cw[1]), linear(cb[1]), linear(cw[2]), linear(cb[2])
+            if not all(x is not None and len(x[0]) == 1 for x in (lw_r, lb_r, lw_c, lb_c)):
+                verdict["forms"] = False
+                continue
+            (rw, aw), = lw_r[0].items()
+            (rb, ab), = lb_r[0].items()
+            (cw_, acw), = lw_c[0].items()
+            (cb_, acb), = lb_c[0].items()
+            bw, bb_ = lw_r[1], lb_r[1]
+            same_vars = rw == rb == ("item", rank) and cw_ == cb_ == ("item", file_)
+            # black at row r must use what white uses at row FLIP - r:  aw*(FLIP - r) + bw == ab*r + bb
+            verdict["row"] = verdict["row"] and same_vars and ab == -aw and bb_ == aw * FLIP + bw
+            verdict["col"] = verdict["col"] and same_vars and acw == acb and lw_c[1] == lb_c[1]
+            detail = "white row index %+d*%s%+d, black row index %+d*%s%+d (the colour mirror maps row r to %d-r, so black must index %+d*row%+d); column index white %+d*%s%+d, black %+d*%s%+d" % (
+                aw, item_name.get(rw, "?"), bw, ab, item_name.get(rb, "?"), bb_, FLIP, -aw, aw * FLIP + bw, acw, item_name.get(cw_, "?"), lw_c[1], acb, item_name.get(cb_, "?"), lb_c[1])
+        if not verdict["forms"]:
+            ctx.ob("mirror:%s:index-forms" % short, False, where, "table indices are not affine in the loop variables", reason="shape-not-recognised")
+        else:
+            ctx.ob("mirror:%s:row-identity" % short, verdict["row"], where, detail)
+            ctx.ob("mirror:%s:column-identity" % short, verdict["col"], where, detail + " (files are not mirrored)")
+        dims = {(len(cw[0]), len(cw[0][0])) for cw, cb in per_kind.values()}
+        ctx.ob("tables:%s:8x8" % short, dims == {(8, 8)}, b.file, "table shapes %s" % sorted(dims))
+        bounds[nm] = max(abs(x + cw[3]) for cw, cb in per_kind.values() for row in cw[0] for x in row)
     ctx.ob("fold:visits-64-squares", rr == (2, 10) and cr == (2, 10), b.file, "rows %s, columns %s" % (rr, cr))
     # ---- bound
-    T_names = sorted(by_T)
     mate = f.const_value("engine::MATE_SCORE")
     max_depth = f.const_value("search::MAX_DEPTH") if f.has_const("search::MAX_DEPTH") else 100
-    bounds = {}
-    for T in T_names:
-        tv = _table_values(f, T)
-        V = by_T[T][0]["White"]["V"]
-        vv = _table_values(f, V)
-        hi = max(max(max(r) for r in tv[k]) + vv[k] for k in tv)
-        lo = min(min(min(r) for r in tv[k]) + vv[k] for k in tv)
-        dims = {(len(tv[k]), len(tv[k][0])) for k in tv}
-        ctx.ob("tables:%s:8x8" % T.split("::")[-1], dims == {(8, 8)}, b.file, "table shapes %s" % sorted(dims))
-        bounds[T] = max(abs(hi), abs(lo))
-    nsq = (rr[1] - rr[0]) * (cr[1] - cr[0])
     M = max(bounds.values())
     total = nsq * M
     margin = max(15, int(max_depth))
@@ -1137,33 +1241,16 @@ def r14_2(ctx):
                nsq, M, total, margin, mate - margin))
     # phase values and overflow
     pmax = 0
-    for pfn in sorted(phase_fns):
-        pv = _table_values(f, pfn)
-        pmax = max(pmax, max(pv.values()) * nsq)
-        ctx.ob("phase:bounded", min(pv.values()) >= 0 and pmax < 2**31, b.file, "phase per piece in [%d, %d]" % (min(pv.values()), max(pv.values())))
+    for e, vals in sorted(phase_vals.items(), key=str):
+        pmax = max(pmax, max(vals.values()) * nsq)
+        ctx.ob("phase:bounded", min(vals.values()) >= 0 and pmax < 2**31, b.file, "phase per piece in [%d, %d]" % (min(vals.values()), max(vals.values())))
     # running totals: |accumulator| <= squares x largest |contribution| it can receive from one piece
-    cache = {}
-
-    def term_bound(t):
-        c = _call_of_kind(f, t[1][1]) if (t[0] == "index" and t[1][0] == "index") else _call_of_kind(f, t)
-        if c is None:
-            return None
-        if c[0] not in cache:
-            tv = _table_values(f, c[0])
-            cache[c[0]] = max(max(abs(x) for r in v for x in r) if isinstance(v, list) else abs(v) for v in tv.values())
-        return cache[c[0]]
     acc_max = 0
-    for l in fold.accs:
-        for S in contrib:
-            for colour in contrib[S]:
-                if acc_max is None:
-                    break
-                terms, k0 = contrib[S][colour].get(l, ({}, 0))
-                bs = [term_bound(t) for t in terms]
-                if any(x is None for x in bs):
-                    acc_max = None
-                    break
-                acc_max = max(acc_max, nsq * (abs(k0) + sum(abs(c) * x for c, x in zip(terms.values(), bs))))
+    for (S, C, K, l), (cells, k0) in contrib.items():
+        if any(k[0] == "?" for k in cells):
+            acc_max = None
+            break
+        acc_max = max(acc_max, nsq * (abs(k0) + sum(abs(c) * max(abs(x) for row in k[0] for x in row) for k, c in cells.items())))
     C = next(iter(forms.values()))[3] if forms else 24
     big = max(total, acc_max or 0)
     worst = 2 * big * max(C, pmax) * 2
